@@ -528,6 +528,8 @@ def _chk_c09_pos(model, xs, cs, key):
                     if ci is not None:
                         Jc = jax.jacobian(params_of, argnums=1)(xp[i], ci)  # (dim, P, cond)
                         out.setdefault("maf_cond_dep_min", []).append(Jc)
+                        # through the public method too (how transform feeds the conditioner)
+                        out.setdefault("layer_transform_cond_dep_min", []).append(jax.jacobian(lambda c: layer.transform(xp[i], c))(ci))
                 return {k: jnp.stack(v) for k, v in out.items()}
 
             merge(_vm(per, nb)(node))
@@ -545,6 +547,8 @@ def _chk_c09_pos(model, xs, cs, key):
                     out.setdefault("coupling_block_dep_min", []).append(jax.jacobian(params_of, argnums=0)(xp[i][:d], ci))
                     if ci is not None:
                         out.setdefault("coupling_cond_dep_min", []).append(jax.jacobian(params_of, argnums=1)(xp[i][:d], ci))
+                        out.setdefault("layer_transform_cond_dep_min", []).append(jax.jacobian(lambda c: layer.transform(xp[i], c))(ci)[d:])
+                    out.setdefault("layer_transform_block_dep_min", []).append(jax.jacobian(lambda x: layer.transform(x, ci))(xp[i])[d:, :d])
                 return {k: jnp.stack(v) for k, v in out.items()}
 
             merge(_vm(per, nb)(node))
@@ -858,6 +862,11 @@ def oracle_c09(world, result):
                 V.append({"clause": "c09.maf_condition_dependency_missing", "detail": f"{label}: with all-positive weights some transformer parameter does not depend on a condition coordinate (min derivative {float(rp['maf_cond_dep_min'])})"})
             if "maf_permitted_x_dep_min" in rp and m.get("width", 0) >= m.get("dim", 99) and not float(rp["maf_permitted_x_dep_min"]) > 0:
                 V.append({"clause": "c09.maf_permitted_dependency_missing", "detail": f"{label}: hidden width {m.get('width')} >= dim {m.get('dim')} and all-positive weights, yet the parameters of some output i do not depend on some x_j, j < i (min derivative {float(rp['maf_permitted_x_dep_min'])})"})
+            if m.get("transformer") in ("affine", "loc", "scale"):
+                # y = x * scale(.) + loc(.) at positive x: strictly increasing in everything the conditioner may see
+                for k, what in (("layer_transform_cond_dep_min", "a condition coordinate"), ("layer_transform_block_dep_min", "a first-block coordinate")):
+                    if k in rp and not float(rp[k]) > 0:
+                        V.append({"clause": "c09.transform_dependency_missing", "detail": f"{label}: with all-positive weights and an affine-type transformer, a transformed output of layer.transform does not depend on {what} (min derivative {float(rp[k])})"})
             for k, what in (("coupling_block_dep_min", "a first-block coordinate"), ("coupling_cond_dep_min", "a condition coordinate")):
                 if k in rp and not float(rp[k]) > 0:
                     V.append({"clause": "c09.coupling_dependency_missing", "detail": f"{label}: with all-positive weights a transformer parameter of a coupling layer does not depend on {what} (min derivative {float(rp[k])})"})
